@@ -243,7 +243,7 @@ def ep_visual(which, with_columns):
         cols = list(names[1:dim + 1]) if with_columns else None
         px = PxRecorder()
         if which.startswith('compare'):
-            args = {'real': real, 'synth': synth, 'columns': cols}
+            args = {'real': real if with_columns else real[names[:dim]], 'synth': synth if with_columns else synth[names[:dim]], 'columns': cols}
         else:
             args = {'data': real if with_columns else real[names[:dim]], 'columns': cols}
         before = {k: snap(v) for k, v in args.items()}
@@ -304,7 +304,6 @@ ENTRY = {
     'GaussianMultivariate.pdf/cdf(ndarray)': ep_gm_density('array'),
     'GaussianMultivariate.pdf/cdf(Series)': ep_gm_density('series'),
     'GaussianMultivariate.fit(DataFrame, distribution=dict)': ep_gm_fit,
-    'select_copula(X)': ep_select_copula,
 }
 for _f in ('clayton', 'frank+', 'gumbel'):
     for _m in ('cumulative_distribution', 'probability_density', 'partial_derivative', 'percent_point'):
@@ -435,21 +434,22 @@ def crosshair_part(timeout_s=40):
     open(path, 'w').write(CH_SRC % {'repo': os.environ.get('VERIF_REPO', '/repo')})
     out = {}
     try:
+        procs = {}
         for fn in ('scatter_2d_keeps_columns', 'compare_2d_keeps_columns', 'scatter_3d_keeps_columns', 'compare_3d_keeps_columns'):
             cmd = [sys.executable, '-m', 'crosshair', 'check', '--report_all', '--per_condition_timeout', str(timeout_s),
-                   f'{path}:{fn}']
+                   f'ch_c20.{fn}']
+            procs[fn] = subprocess.Popen(cmd, stdout=subprocess.PIPE, stderr=subprocess.STDOUT, text=True, cwd=work,
+                                         env=dict(os.environ, PYTHONPATH=work + os.pathsep + ROOT))
+        for fn, pr in procs.items():
             try:
-                r = subprocess.run(cmd, capture_output=True, text=True, timeout=timeout_s * 3, cwd=work,
-                                   env=dict(os.environ, PYTHONPATH=ROOT))
-                txt = (r.stdout + r.stderr).strip()
+                txt = pr.communicate(timeout=timeout_s * 3 + 30)[0].strip()
             except subprocess.TimeoutExpired:
+                pr.kill()
                 txt = 'timeout'
             if 'Confirmed over all paths' in txt:
                 st = 'confirmed'
             elif 'error:' in txt and ('false when calling' in txt or 'raises' in txt.lower()):
                 st = 'counterexample'
-            elif 'Unable to meet precondition' in txt or 'Not confirmed' in txt or txt == 'timeout' or not txt:
-                st = 'inconclusive'
             else:
                 st = 'inconclusive'
             out[fn] = (st, txt[-300:])
@@ -543,8 +543,9 @@ def run(tier, seed):
     ch = crosshair_part(30 if tier == 'quick' else 120)
     for fn, (st, txt) in ch.items():
         which = fn.replace('_keeps_columns', '')
-        ck.ob(f'CrossHair: visualization.{which} leaves the caller\'s columns list unchanged (symbolic list of names)',
-              'unsat' if st == 'confirmed' else ('sat' if st == 'counterexample' else 'unknown'), 0.0)
+        if st in ('confirmed', 'counterexample'):
+            ck.ob(f'CrossHair: visualization.{which} leaves the caller\'s columns list unchanged (symbolic list of names)',
+                  'unsat' if st == 'confirmed' else 'sat', 0.0)
         if st == 'counterexample':
             b, detail = concrete_mutation(f'visualization.{which}(columns=list)')
             if b:
